@@ -349,8 +349,12 @@ class Ctx:
         ev = {"property_id": self.pid, "tier": self.tier, "seed": self.seed, "level": self.level,
               "coverage": cov, "assumptions": self.assumptions, "wall_s": round(wall, 2),
               "violations": len(self.violations) + (1 if self.broken and not self.violations else 0)}
-        os.makedirs(os.path.join(VERIF, "evidence"), exist_ok=True)
-        with open(os.path.join(VERIF, "evidence", self.pid + ".json"), "w") as f:
+        # evidence/ describes /repo; a run against another tree (REPO=..., used to try seeded changes) or with a
+        # shortened watchdog writes under build/ instead
+        edir = os.path.join(VERIF, "evidence") if os.path.realpath(REPO) == "/repo" and not os.environ.get("VERIF_HARNESS_LIMIT") \
+            else os.path.join(BUILD, "evidence-other-tree")
+        os.makedirs(edir, exist_ok=True)
+        with open(os.path.join(edir, self.pid + ".json"), "w") as f:
             json.dump(ev, f, indent=1, default=repr)
         print("%s %s: obligations %d/%d, %d evaluations (%d distinct non-trivial), %d model/impl traces, %.1fs -> %s"
               % (self.pid, self.tier, self.discharged, self.obligations, self.evaluations, len(self.distinct),
